@@ -1,4 +1,4 @@
 From Coq Require Extraction.
 From Coq Require Import ExtrOcamlBasic.
 From Verif.C01 Require Import Gen_Grammar Model.
-Extraction "c01_ext.ml" pp_items pp parse no_fuse fuses wf lex_ok binop_table.
+Extraction "c01_ext.ml" pp_items pp parse no_fuse fuses wf image binop_table.
